@@ -262,6 +262,9 @@ func (h *H) FSOps() int                  { return 0 }
 // description in Extra["crashPlan"] using snapshots; see crash.go.
 func (h *H) CrashImage(path string) bool { return h.nativeCrash(path) }
 
+// CrashImageAnywhere: like CrashImage, but the crash point ranges over the whole operation log.
+func (h *H) CrashImageAnywhere(path string) bool { return h.nativeCrash(path) }
+
 // Finish runs quiescence callbacks and prints the result record.
 func (h *H) Finish() {
 	h.wg.Wait()
